@@ -48,6 +48,7 @@ STD_TRANSPARENT = (
     "core::option::Option::<T>::ok_or", "core::option::Option::<T>::ok_or_else", "core::option::Option::<T>::and_then",
     "core::option::Option::<T>::or_else", "core::option::Option::<T>::unwrap_or", "core::option::Option::<T>::unwrap_or_else",
     "core::option::Option::<T>::is_some", "core::option::Option::<T>::is_none", "core::option::Option::<T>::as_ref",
+    "core::option::Option::<T>::as_deref",
     "core::option::Option::<T>::filter", "core::option::Option::<T>::ok_or",
     "core::option::Option::<T>::is_some_and",
     "core::result::Result::<T, E>::map", "core::result::Result::<T, E>::map_err", "core::result::Result::<T, E>::and_then",
@@ -96,6 +97,24 @@ def _ren(x, lo, bo):
     return x
 
 
+import re as _re
+
+
+def _subst_types(x, m):
+    """rename whole-word type parameter names inside every string of a MIR json fragment (simultaneous substitution)"""
+    pat = _re.compile(r"(?<![A-Za-z0-9_])(%s)(?![A-Za-z0-9_])" % "|".join(_re.escape(k) for k in sorted(m, key=len, reverse=True)))
+
+    def go(v):
+        if isinstance(v, str):
+            return pat.sub(lambda mm: m[mm.group(1)], v)
+        if isinstance(v, dict):
+            return {k: go(w) for k, w in v.items()}
+        if isinstance(v, list):
+            return [go(w) for w in v]
+        return v
+    return go(x)
+
+
 def _shift_targets(t, bo):
     k = t["k"]
     if k == "goto":
@@ -125,7 +144,8 @@ def _callee_key(t):
 
 
 class Inliner:
-    def __init__(self, table, lookup, max_depth=8, policy=None):
+    def __init__(self, table, lookup, max_depth=8, policy=None, poly=False):
+        self.poly = poly
         """table: key -> fn dict (with body); lookup(call terminator) -> callee fn dict or None"""
         self.table = table
         self.lookup = lookup
@@ -174,6 +194,13 @@ class Inliner:
         return last.get("ty") if isinstance(last, dict) else None
 
     def _splice(self, body, bi, t, cbody, ck, cal=None):
+        if self.poly and cal is not None and cal.get("gparams"):
+            # polymorphic splice: rename the callee's type parameters to the caller's types at this call site
+            _, fr = _callee_key(t)
+            ga = (fr or {}).get("gargs") or []
+            gp = cal["gparams"]
+            if len(ga) == len(gp) and any(a != p for a, p in zip(ga, gp)):
+                cbody = _subst_types(cbody, dict(zip(gp, ga)))
         argc = cbody["argc"]
         args = list(t["args"])
         # closures are called with (env, (a, b, ..)) but their bodies take (env, a, b, ..)
@@ -296,7 +323,7 @@ def apply_to_facts(F):
         return F.fns.get(kk) if kk else None
     poly_helpers = [k for k, v in F.fns.items() if is_helper(v)]
     if poly_helpers:
-        inl2 = Inliner(F.fns, lookup_fn, policy=is_helper)
+        inl2 = Inliner(F.fns, lookup_fn, policy=is_helper, poly=True)
         for k in list(F.fns):
             if is_helper(F.fns[k]):
                 continue
